@@ -1,5 +1,5 @@
 ----------------------------- MODULE PoolLifeSim -----------------------------
-(* Behaviour generator: PoolLifeImpl (the code as it is: FeeRecheck = "asis") plus a history variable, printed as JSON
+(* Behaviour generator: PoolLifeImpl (the code as it is: FeeRecheck = "exact") plus a history variable, printed as JSON
    when the depth bound is reached (tlc -simulate).  The history starts with the universe, so that the harness can realise
    it on real chains; every step carries what the model predicts (pool content, state) - compared for drift only. *)
 EXTENDS MCPoolLife, Json
